@@ -225,7 +225,7 @@ TLoaded ==
   /\ UNCHANGED <<meta, g, L, F, FT, prev, relax, taint, afterCrash, tw, viol, stats>> /\ Step
 
 TSkip ==
-  /\ l <= Len(Tr) /\ E.e \in {"Scanned", "Msg", "PoolsAtEnd", "Crash", "SpawnFail", "Logs", "EndRun"}
+  /\ l <= Len(Tr) /\ E.e \in {"Scanned", "Msg", "PoolsAtEnd", "Crash", "SpawnFail", "Logs", "EndRun", "Printer", "Out"}
   /\ UNCHANGED <<meta, g, L, F, FT, iv, prev, relax, taint, afterCrash, tw, viol, stats>> /\ Step
 
 \* -- Exit ----------------------------------------------------------------------
